@@ -383,16 +383,26 @@ impl PartialOrd for CharacterData {
 impl Eq for CharacterData {}
 
 fn escape_text(input: &str) -> Cow<str> {
-    if input.contains(['&', '>', '<', '\'', '"']) {
+    // whitespace at the start or at the end of a value would be trimmed when the text is loaded again,
+    // so it is written as character references
+    let is_ws = |c: char| c.is_ascii_whitespace();
+    let lead_ws_end = input.len() - input.trim_start_matches(is_ws).len();
+    let trail_ws_start = input.trim_end_matches(is_ws).len();
+    if lead_ws_end > 0 || trail_ws_start < input.len() || input.contains(['&', '>', '<', '\'', '"']) {
         let mut escaped = String::with_capacity(input.len() + 6);
 
-        for c in input.chars() {
+        for (pos, c) in input.char_indices() {
             match c {
                 '<' => escaped.push_str("&lt;"),
                 '>' => escaped.push_str("&gt;"),
                 '&' => escaped.push_str("&amp;"),
                 '"' => escaped.push_str("&quot;"),
                 '\'' => escaped.push_str("&apos;"),
+                ws if pos < lead_ws_end || pos >= trail_ws_start => {
+                    escaped.push_str("&#");
+                    escaped.push_str(&(ws as u32).to_string());
+                    escaped.push(';');
+                }
                 other => escaped.push(other),
             }
         }
